@@ -71,6 +71,21 @@ func canonSubs(n *subscriptions.Node, b *strings.Builder) {
 	b.WriteString(")")
 }
 
+// scratchKey hands the store a key in a buffer the caller goes on to reuse (the broker passes slices of its packet
+// buffers); scribble overwrites it once the call has returned. A store that keeps the caller's bytes instead of copying
+// them sees its keys change under it.
+func scratchKey(k string) []byte {
+	b := make([]byte, len(k), len(k)+8)
+	copy(b, k)
+	return b
+}
+func scribble(b []byte) {
+	b = b[:cap(b)]
+	for i := range b {
+		b[i] = '~'
+	}
+}
+
 type kvModel map[string]string
 
 func (m kvModel) canon() string {
@@ -178,7 +193,9 @@ func (s *topicsSys) apply(i int) *vk.Violation {
 	o := s.ops[i]
 	switch o.kind {
 	case "ins":
-		old, err := s.st.Insert([]byte(o.key), []byte(o.val))
+		kb := scratchKey(o.key)
+		old, err := s.st.Insert(kb, []byte(o.val))
+		scribble(kb)
 		if err != nil {
 			return &vk.Violation{Sig: "topics-insert-error", Msg: fmt.Sprintf("Insert error %v", err)}
 		}
@@ -192,7 +209,9 @@ func (s *topicsSys) apply(i int) *vk.Violation {
 			s.model[o.key] = o.val
 		}
 	case "rem":
-		s.st.Remove([]byte(o.key)) // error value for an absent key is not judged
+		kb := scratchKey(o.key)
+		s.st.Remove(kb) // error value for an absent key is not judged
+		scribble(kb)
 		delete(s.model, o.key)
 	case "rt":
 		buf, err := s.st.Dump()
@@ -209,9 +228,8 @@ func (s *topicsSys) apply(i int) *vk.Violation {
 	return s.observe()
 }
 func (s *topicsSys) Key() string {
-	var b strings.Builder
-	canonTopics(topicsRoot(s.st), &b)
-	return b.String() + "#" + s.model.canon()
+	// every field of the store (not only the node tree): a hidden cache or index is state too
+	return deepCanon(s.st) + "#" + s.model.canon()
 }
 func (s *topicsSys) Nontrivial() bool {
 	// at least one stored key is a strict prefix of another stored key
@@ -282,7 +300,9 @@ func (s *subsSys) apply(i int) *vk.Violation {
 	case "ups":
 		var seen string
 		called := 0
-		err := s.st.Upsert([]byte(o.key), func(old []byte) []byte {
+		kb := scratchKey(o.key)
+		defer scribble(kb)
+		err := s.st.Upsert(kb, func(old []byte) []byte {
 			called++
 			seen = string(old)
 			if o.val == "" {
@@ -315,9 +335,7 @@ func (s *subsSys) apply(i int) *vk.Violation {
 	return s.observe()
 }
 func (s *subsSys) Key() string {
-	var b strings.Builder
-	canonSubs(subsRoot(s.st), &b)
-	return b.String() + "#" + s.model.canon()
+	return deepCanon(s.st) + "#" + s.model.canon()
 }
 func (s *subsSys) Nontrivial() bool {
 	for a := range s.model {
